@@ -201,6 +201,13 @@ def parseDesc : String → Option Bool
   | "default" => some true    -- timed.NewPriorityQueue() without argument is descending
   | _ => none
 
+/-- White-box state of the `gh` stream: the array and the index field of every element ever pushed. -/
+def showStateGH (s : St) : String :=
+  "[" ++ " ".intercalate (s.arr.map (fun e => s!"{e.val}:{e.key}")) ++ "] i" ++ showIntList s.idx
+
+/-- White-box state of `pq` / `tpq`: the values of the heap array in slot order. -/
+def showStatePQ (s : St) : String := showVals s.arr
+
 /-- Requests common to `pq` and `tpq` (`timed`: `Push` returns no handle). -/
 def stepPQ (timed : Bool) (s : St) (toks : List String) : St × String :=
   match toks with
